@@ -8,6 +8,7 @@ package sod
 // engine's fs model and crash (panic) or fail (EIO) at a chosen step.
 
 import (
+	"compress/gzip"
 	"errors"
 	"io"
 	"io/fs"
@@ -71,7 +72,33 @@ func vfsOpenFile(path string, flag int, perm fs.FileMode) (*os.File, error) {
 	return os.OpenFile(path, flag, perm)
 }
 
+// vfsGz wraps the real gzip writer: as in the engine's model the
+// payload reaches the file at Close, which is therefore the counted step.
+type vfsGz struct {
+	zw *gzip.Writer
+}
+
+func (g *vfsGz) Write(p []byte) (int, error) { return g.zw.Write(p) }
+
+func (g *vfsGz) Close() error {
+	if !vfsStep() {
+		return vfsEIO("write", "?")
+	}
+	return g.zw.Close()
+}
+
+func vfsGzipWriterLevel(w io.Writer, level int) (*vfsGz, error) {
+	zw, err := gzip.NewWriterLevel(w, level)
+	if err != nil {
+		return nil, err
+	}
+	return &vfsGz{zw}, nil
+}
+
 func vfsCopy(w io.Writer, r io.Reader) (int64, error) {
+	if _, ok := w.(*vfsGz); ok {
+		return io.Copy(w, r) // buffered: the step is counted at Close
+	}
 	if !vfsStep() {
 		return 0, vfsEIO("write", "?")
 	}
